@@ -504,7 +504,31 @@ func runC08(c *explore.Ctx) {
 			if len(z.want.Terms(f)) > 400 {
 				continue // thousands of terms x ranges x automata: the dictionary itself is compared by every observation
 			}
-			checkDict(c, "ZOO", &sub, z.seg, z.want, f, oneHitTerms(z.want, f), rsSmall, asSmall, z.name)
+			// ranges whose bounds are the member's own terms (first, middle, last), their successors and
+			// their longest proper prefixes: bounds as long as the terms, sharing long prefixes with them
+			rs := append([]rangeSpec{}, rsSmall...)
+			if ts := z.want.Terms(f); len(ts) > 0 {
+				var keys [][]byte
+				for _, t := range []string{ts[0], ts[len(ts)/2], ts[len(ts)-1]} {
+					// (the property quantifies over nil or NON-EMPTY bounds: an empty non-nil key is not
+					// a bound it speaks about, so the empty term contributes only its successor)
+					if len(t) > 0 {
+						keys = append(keys, []byte(t))
+					}
+					keys = append(keys, []byte(t+"\x00"))
+					if len(t) > 1 {
+						keys = append(keys, []byte(t[:len(t)-1]))
+					}
+				}
+				sort.Slice(keys, func(i, j int) bool { return bytes.Compare(keys[i], keys[j]) < 0 })
+				for i := range keys {
+					rs = append(rs, rangeSpec{keys[i], nil}, rangeSpec{nil, keys[i]})
+					for j := i; j < len(keys); j++ {
+						rs = append(rs, rangeSpec{keys[i], keys[j]})
+					}
+				}
+			}
+			checkDict(c, "ZOO", &sub, z.seg, z.want, f, oneHitTerms(z.want, f), rs, asSmall[:2], z.name)
 		}
 		zooRelabel(c, mark, idx, z.name)
 	})
